@@ -7,7 +7,8 @@ by calling beanquery.
 
 E  tables   for each of the 12 column datatypes (int, decimal, str, date, bool, set, dict, object, Amount,
             Position, Cost, Inventory): every column of 0..3 cells over the datatype's alphabet (NULL,
-            negatives, zero, differing precision, 1/3, scientific notation, six currencies, empty / multi-lot /
+            negatives, zero, differing precision, numbers whose rounding to the display precision carries into a new
+            leading digit, cost labels of different lengths, 1/3, scientific notation, six currencies, empty / multi-lot /
             seven-slot inventories ...), once with a one-letter header and once with a 20-letter header (quick
             tier: 0..2 cells under the long header);
             every ordered pair of datatypes side by side with 1..2 rows over reduced alphabets; the empty
@@ -97,6 +98,9 @@ def alphabets(seed, thorough):
     o_dec = _rot([D('1234.5678'), D('98.7654'), D('500.125')], seed)
     o_amt = _rot(['1.5', '2.5', '12.5', '7.25'], seed)
     o_str = _rot(['Ab cd', 'Xy z', 'Hello w'], seed)
+    # more digits than the display precision AND rounding carries into a new leading digit (99.996 USD shows as 100.00)
+    carry = _rot(['99.996', '9.999', '999.996', '99.996'], seed)
+    long_label = 'lot-2019-long'
     hool1 = P('1.123', 'HOOL', C('2.50', 'USD', d1, 'lbl'))
     hool2 = P('2.000', 'HOOL', C('3.00', 'USD', d1))
     hool3 = P('1', 'HOOL', C('4.00', 'USD', d2))
@@ -104,6 +108,7 @@ def alphabets(seed, thorough):
     inv3 = I(P('-7', 'EUR'), hool2, hool3)
     invmix = I(P('2', 'HOOL'), P('30.00', 'USD'))     # HOOL without cost, while other rows hold it at cost
     inv7 = I(P('1', 'USD'), P('2', 'EUR'), hool2, hool3, P('4.5', 'GBP'), P('5', 'CAD'), P('600', 'JPY'))
+    inv_carry = I(P(carry, 'USD'), hool2)
     plus = (lambda *v: list(v)) if thorough else (lambda *v: [])
     full = {
         'int': [None, -300, 0, o_int, o_big],
@@ -114,10 +119,12 @@ def alphabets(seed, thorough):
         'set': [None, frozenset(), frozenset({'a'}), frozenset({'a', 'bcd'})],
         'dict': [None, {}, {'k': 1}, {'filename': '<string>', 'lineno': 11}],
         'object': [None, D('2.50'), 'x', datetime.date(2020, 1, 2), True, {'k': 1}],
-        'amount': [None, A(o_amt, 'USD'), A('-1000', 'HOOL'), A('0', 'EUR'), A('3.14159', 'USD'), A('-2.80750', 'USD')] + plus(A('100', 'JPY')),
-        'position': [None, hool1, P('-3', 'USD'), hool2, P('7', 'EUR'), P('-2.80750', 'USD')],
-        'cost': [None, C('2.50', 'USD', d1, 'lbl'), C('3.00', 'USD', d1), C('1234.5678', 'EUR', d2)],
-        'inventory': [None, I(), I(P('1', 'USD')), invmix, inv2, inv3, inv7] + plus(I(P('-8.80750', 'USD'), P('7', 'EUR'), hool1, hool2)),
+        'amount': [None, A(o_amt, 'USD'), A('-1000', 'HOOL'), A('0', 'EUR'), A('3.14159', 'USD'), A('-2.80750', 'USD'), A(carry, 'USD')]
+                  + plus(A('100', 'JPY'), A('9.9996', 'HOOL')),
+        'position': [None, hool1, P('-3', 'USD'), hool2, P('7', 'EUR'), P('-2.80750', 'USD'), P(carry, 'USD'), P('1', 'HOOL', C(carry, 'USD', d1))],
+        'cost': [None, C('2.50', 'USD', d1, 'lbl'), C('3.00', 'USD', d1), C('1234.5678', 'EUR', d2), C(carry, 'USD', d1, 'x'),
+                 C('3.00', 'USD', d2, long_label)],      # labels of 1, 3 and 13 letters and none, in every row order
+        'inventory': [None, I(), I(P('1', 'USD')), invmix, inv2, inv3, inv7, inv_carry] + plus(I(P('-8.80750', 'USD'), P('7', 'EUR'), hool1, hool2)),
     }
     reduced = {
         'int': [None, -300, o_int],
@@ -128,9 +135,9 @@ def alphabets(seed, thorough):
         'set': [None, frozenset(), frozenset({'a', 'bcd'})],
         'dict': [None, {'k': 1}],
         'object': [None, D('2.50'), 'x'],
-        'amount': [None, A(o_amt, 'USD'), A('-1000', 'HOOL'), A('3.14159', 'USD')] + plus(A('0', 'EUR')),
+        'amount': [None, A(o_amt, 'USD'), A('-1000', 'HOOL'), A('3.14159', 'USD'), A(carry, 'USD')] + plus(A('0', 'EUR')),
         'position': [None, hool1, P('-3', 'USD')],
-        'cost': [None, C('2.50', 'USD', d1, 'lbl'), C('1234.5678', 'EUR', d2)],
+        'cost': [None, C('2.50', 'USD', d1, 'lbl'), C('1234.5678', 'EUR', d2), C('3.00', 'USD', d2, long_label)],
         'inventory': [None, I(), invmix, inv2, inv3],
     }
     return full, reduced
